@@ -118,6 +118,10 @@ def slip_case(am, defect, c, perm, inv, shift, u):
         return ('displacement is not the imposed displacement', 'max diff %r' % np.abs(disp - np.outer(above, s)).max())
     s1u = s1w if wrapped else s1
     where = ' [normal along %s, slipped system %s]' % ('xyz'[list(ax).index(2)], 'wrapped' if wrapped else 'as displaced')
+    if _pick(c, 11) % 2:
+        # the reference system already carries a neighbour list of ANOTHER cutoff as an attribute (the documented fallback when neither
+        # neighbours nor a cutoff are passed): an explicit cutoff still decides
+        s0.neighbors = s0.neighborlist(cutoff=cutoff * (0.8 if c['shell'] == 2 else 1.25))
     sv = defect.slip_vector(s0, s1u, cutoff=cutoff)
     if not np.allclose(sv, exp_slip, atol=1e-9):
         k = int(np.argmax(np.abs(sv - exp_slip).sum(axis=1)))
@@ -195,6 +199,15 @@ def homog_case(am, defect, c, perm, inv, shift, u):
         st2 = defect.Strain(s1, cutoff=cutoff, p_vectors=arg, theta_max=27)
         if not np.allclose(st2.G, G, atol=1e-9) or np.abs(st2.nye).max() > 1e-8:
             return ('with one shared list of p vectors the lattice-correspondence tensor is not the inverse transpose of F', '')
+        # the same p vectors written in a crystal frame that is turned against the system, together with the axes that relate the two
+        qa, qb, qc, qd = [(3.0, 1.0, -2.0, 1.0), (2.0, -1.0, 1.0, 3.0), (5.0, 2.0, 0.0, -1.0)][_pick(c, 3)]
+        nq = qa * qa + qb * qb + qc * qc + qd * qd
+        Ax = np.array([[qa * qa + qb * qb - qc * qc - qd * qd, 2 * (qb * qc - qa * qd), 2 * (qb * qd + qa * qc)],
+                       [2 * (qb * qc + qa * qd), qa * qa - qb * qb + qc * qc - qd * qd, 2 * (qc * qd - qa * qb)],
+                       [2 * (qb * qd - qa * qc), 2 * (qc * qd + qa * qb), qa * qa - qb * qb - qc * qc + qd * qd]]) / nq
+        st3 = defect.Strain(s1, cutoff=cutoff, p_vectors=[pv @ Ax], axes=Ax, theta_max=27)
+        if not np.allclose(st3.G, G, atol=1e-9) or np.abs(st3.nye).max() > 1e-8:
+            return ('with p vectors given in a turned crystal frame and the axes relating it to the system the result is not the inverse transpose of F', '')
         res = defect.nye_tensor(s1, pv, cutoff=cutoff, theta_max=27)
         if np.abs(res['Nye_tensor']).max() > 1e-8:
             return ('nye_tensor() does not vanish for a homogeneous deformation', 'max %r' % np.abs(res['Nye_tensor']).max())
